@@ -8,6 +8,7 @@
 package vt
 
 import (
+	"bytes"
 	"fmt"
 	"strconv"
 	"strings"
@@ -43,11 +44,11 @@ func (c Color) String() string {
 
 // Pen is the current rendition.
 type Pen struct {
-	Fg, Bg, UlColor                            Color
+	Fg, Bg, UlColor                           Color
 	Bold, Dim, Italic, Blink, Reverse, Strike bool
-	Ul                                         uint8 // 0 none 1 single 2 double 3 curly 4 dotted 5 dashed
-	Link                                       string
-	LinkParams                                 string
+	Ul                                        uint8 // 0 none 1 single 2 double 3 curly 4 dotted 5 dashed
+	Link                                      string
+	LinkParams                                string
 }
 
 // Cell is one character cell.
@@ -105,12 +106,12 @@ type Term struct {
 	Bells      int
 
 	// bookkeeping for the checks
-	Block       int  // current block number (see NextBlock)
-	Erases      int  // erase operations in the current block
-	Scrolls     int  // scrolls in the current block
-	Inserts     int  // ICH in the current block
-	Printed     int  // glyphs printed in the current block
-	CtlBytes    int  // control bytes in the current block
+	Block       int // current block number (see NextBlock)
+	Erases      int // erase operations in the current block
+	Scrolls     int // scrolls in the current block
+	Inserts     int // ICH in the current block
+	Printed     int // glyphs printed in the current block
+	CtlBytes    int // control bytes in the current block
 	Errors      []string
 	offset      int // absolute offset of the next byte
 	st          int
@@ -403,7 +404,12 @@ func (t *Term) tryDecode() {
 			t.pend = raw
 			return
 		}
-		t.errf("undecodable bytes %x in the locale charset", raw)
+		if bytes.Equal(raw, []byte{0x84, 0x31, 0xA4, 0x37}) {
+			// GB18030 is the one legacy charset that can encode U+FFFD itself
+			t.classify(r, raw)
+		} else {
+			t.errf("undecodable bytes %x in the locale charset", raw)
+		}
 	} else {
 		t.classify(r, raw)
 	}
